@@ -26,9 +26,14 @@ func getSignificandPlusOne(float64Bits uint64) float64 {
 	return math.Float64frombits((float64Bits & significandMask) | oneMask)
 }
 
-// exponent should be >= -1022 and <= 1023
+// exponent should be >= -1022
 // significandPlusOne should be >= 1 and < 2
 func buildFloat64(exponent int, significandPlusOne float64) float64 {
+	if exponent > 1023 {
+		// Above the largest float64 (e.g., the upper bound of the bin of the
+		// largest indexable value): the exponent bits must not wrap around.
+		return math.Inf(1)
+	}
 	return math.Float64frombits(
 		(uint64((exponent+exponentBias)<<exponentShift) & exponentMask) | (math.Float64bits(significandPlusOne) & significandMask),
 	)
